@@ -486,6 +486,27 @@ impl World {
                 }
             }
         }
+        // an application or transport cause is unconditional: whatever state the object was in (connecting included),
+        // it is disconnected (or gone) when the call returns
+        if matches!(call, "disconnect" | "disconnect_all" | "disconnect_local_client" | "client.disconnect" | "disconnect_due_to_transport") {
+            for &k in touched_cli {
+                if k < self.clients.len() && self.clients[k].dead.is_none() {
+                    let c = &self.clients[k].c;
+                    let d = format!("client k{} after `{}`: is_disconnected={} is_connected={} is_connecting={} reason={:?}", k, call, c.is_disconnected(), c.is_connected(), c.is_connecting(), c.disconnect_reason());
+                    self.violate(ctx, out, &format!("C12/cause-ignored/client/{}", call), "every cause of disconnection disconnects the connection it is applied to", d);
+                } else {
+                    out.count("unconditional_causes_checked");
+                }
+            }
+            for &id in touched_ids {
+                if self.sst.get(&id) == Some(&St::Alive) {
+                    let d = format!("server connection {} after `{}`: still present and healthy (is_connected={})", id, call, self.server.is_connected(id));
+                    self.violate(ctx, out, &format!("C12/cause-ignored/server/{}", call), "every cause of disconnection disconnects the connection it is applied to", d);
+                } else {
+                    out.count("unconditional_causes_checked");
+                }
+            }
+        }
         // probes on dead objects: the ones this call touched plus one random object
         let mut pid: Vec<u64> = touched_ids.to_vec();
         pid.push(*self.rng.pick(&self.ids.clone()));
@@ -1059,6 +1080,8 @@ impl World {
         self.op(format!("k{}.{}()", k, name));
         if self.clients[k].dead.is_some() {
             out.count("dead_status_call");
+        } else if which >= 2 && self.clients[k].c.is_connecting() {
+            out.count("causes_applied_while_connecting");
         }
         let c = &mut self.clients[k].c;
         match which {
